@@ -11,5 +11,6 @@ import DSymVerif.Props.C09
 #print axioms DSymVerif.C09.fg_total
 #print axioms DSymVerif.C09.generator_facet_pairs
 #print axioms DSymVerif.C09.textbook_onto_returned
+#print axioms DSymVerif.C09.spanning_tree_is_spanning_tree
 #print axioms DSymVerif.C09.presents_orbifold_group
 #print axioms DSymVerif.C09.returned_group_is_textbook_group
